@@ -685,6 +685,38 @@ pub fn c06(ctx: &Ctx, rep: &mut Report) {
             }
         }
     }
+    // identifiers that a data format might read as something else - YAML 1.1 booleans and nulls in every
+    // capitalisation, number look-alikes, the AST's own node and field names - in every identifier position
+    let sensitive: [&str; 118] = [
+        "y", "Y", "n", "N", "yes", "Yes", "YES", "no", "No", "NO", "on", "On", "ON", "off", "Off", "OFF", "True", "TRUE", "False", "FALSE", "Null", "NULL", "nil", "Nil", "NIL", "NaN", "nan", "NAN", "inf", "Inf",
+        "INF", "infinity", "Infinity", "_", "__", "_0", "_1", "e1", "E1", "x1e3", "o17", "x0x10", "t", "T", "f", "F", "nul", "none", "None", "NONE", "undefined", "void", "quote", "lambda", "Top", "Integer",
+        "Boolean", "Variable", "Array", "Object", "AccessVariable", "AccessField", "AccessArray", "AssignVariable", "AssignField", "AssignArray", "Function", "Operator", "CallFunction", "CallMethod",
+        "CallOperator", "Operation", "Block", "Loop", "Conditional", "Print", "Identifier", "name", "value", "size", "members", "field", "index", "parameters", "body", "arguments", "operator", "left", "right",
+        "condition", "consequent", "alternative", "format", "Some", "Ok", "Err", "tag", "type", "kind", "key", "id", "ref", "anchor", "alias", "merge", "binary", "set", "omap", "pairs", "seq", "map", "str",
+        "int", "float", "bool", "timestamp", "Addition", "Equality",
+    ];
+    for w in sensitive.iter() {
+        k += 1;
+        if !ctx.mine(k) {
+            continue;
+        }
+        let src = format!(
+            "let {w} = 1;\nfunction {w}({w}) -> {w};\nlet o = object begin let {w} = 2; function {w}({w}, q) -> this.{w} + {w}; end;\nprint(\"~ ~ ~\\n\", {w}, {w}({w}), o.{w}({w}, o.{w}));\no.{w} <- if {w} == 1 then {w} else {w};\n{w} <- array({w}, {w})[0];\n",
+            w = w
+        );
+        match real::parse(&src) {
+            Ok(ast) => {
+                c06_inprocess(rep, &format!("identifier:{}", w), &ast, &src);
+                if k % 4 == 0 {
+                    let mut rng = ctx.rng("C06ident", k);
+                    let cfg = random_config(&mut rng);
+                    c06_cli(rep, &format!("identifier:{}", w), &src, &ast, &cfg, &dir, k);
+                }
+                rep.bump("c06-source", "format-sensitive identifiers");
+            }
+            Err(_) => rep.skip("parser-rejects (C07 territory)"),
+        }
+    }
     // the deterministic stress shapes (boundary sizes, name clashes between fields, methods and
     // built-ins, literals that are never evaluated, long histories) through the staged tools
     for (name, src) in stress_sources() {
